@@ -209,13 +209,17 @@ func c07Pairs(c *Ctx) {
 
 func c07History(c *Ctx) {
 	b, err := NewBed(c, "hist", BedOpts{Upstreams: []string{"pipe", "udp"}, MemSize: 64 << 20, IpMarker: chRangeFile(c07Ranges), ClientAddrHeader: "X-Client-Addr",
+		// a background refresh starts after its request has been answered and recycled; released buffers
+		// go straight back to the pool (no quarantine), so whatever still points into them sees the
+		// next request's data, as in production
+		Env: map[string]string{"VERIF_POINTS": "prefetch.start=sleep(2ms,100.0%)", "VERIF_POOL_QUARANTINE": "0"},
 		Listeners: []string{"udp", "tcp", "gnet", "tls", "http", "fasthttp", "https", "quic"}, UdpRcvBuf: 8 << 20})
 	if err != nil {
 		c.startFailure(err, "c07-hist")
 		return
 	}
 	h := &chHist{}
-	const ttl = 4 // lifetime 4 s; the run spans about 3 lifetimes
+	const ttl = 6 // lifetime 6 s; the run spans about 2 lifetimes; hits in the last 1.5 s start background refreshes
 	nKeys := c.N(12, 40)
 	dur := time.Duration(c.N(13, 40)) * time.Second
 	type key struct {
@@ -265,6 +269,22 @@ func c07History(c *Ctx) {
 	for _, up := range []string{"pipe", "udp"} {
 		for k, v := range fetchesOf(b, up) {
 			fetches[k] = append(fetches[k], v...)
+		}
+	}
+	// what is stored is stored under the question that was asked upstream: every question the
+	// upstreams received (first fetches and background refreshes) is one of the keys of this history
+	asked := map[string]bool{}
+	for _, k := range keys {
+		asked[chKey(k.name, k.qt, k.qc)] = true
+	}
+	for _, up := range []string{"pipe", "udp"} {
+		for _, ql := range b.Up[up].Log() {
+			c.Ev.Eval(1)
+			if ql.BadQuery != "" || !asked[chKey(ql.Name, ql.Qtype, ql.Qclass)] {
+				c.Violation("hist:fetch-for-unasked-question", fmt.Sprintf("upstream %s received the question %q type %d class %d %s which no client asked: its answer is stored under a key nobody queried, or under another question's key", up, ql.Name, ql.Qtype, ql.Qclass, ql.BadQuery),
+					map[string]any{"upstream": up, "name": ql.Name, "qtype": ql.Qtype, "qclass": ql.Qclass, "bad": ql.BadQuery})
+				break
+			}
 		}
 	}
 	alive := b.Proxy.Alive()
